@@ -47,6 +47,33 @@ def _hist_nontrivial(sx, v, meta):
     return v[0] == 'ok' and len(v[2]) > 0 and int(v[2][0]) >= 2
 
 PROPS = {
+    'C13': dict(
+        parts=[dict(harness='C13', judge='C13', cases=dict(quick=6000, thorough=60000), judge_module='Judge.J13', judge_fn='judge_C13',
+                    prerender=dict(gen='C13gen', renderer='render13'))],
+        no_shrink=True,
+        rule='abstract objects of the four formats (DIMACS CNF with empty / duplicate / tautological clauses and declared-but-unused '
+             'variables; OPB with >= and = constraints, coefficients of either sign and 0, trivially true/false constraints, optional '
+             'min: line; WCNF with weights 1..5, top absent / above the sum / small; explain DIMACS) over 1..8 (quick) / 1..11 '
+             '(thorough) variables are rendered by the extracted Coq renderers render_dimacs / render_opb / render_wcnf / '
+             'render_explain with a random layout stream (blanks, tabs, line breaks inside clauses, comment lines, CRLF, trailing '
+             'blanks, optional signs and coefficients, missing final newline) -- the texts the C13 theorems quantify over -- and '
+             'read by the Go readers; no error, and count / optimum / MaxSAT optimum and model / clause list equal to those of '
+             'the abstract object; non-trivial = text of at least 20 bytes',
+        nontrivial=lambda sx, v, meta: v[0] == 'ok' and len(v[2]) > 1 and int(v[2][1]) >= 20,
+        assumptions=['no line of 65536 bytes or more (bufio.Scanner limit, finding O5/E3/W2)',
+                     'negative cost coefficients are left to C03 (finding D6)'],
+    ),
+    'C18': dict(
+        judge='C18', judge_module='Judge.J13', judge_fn='judge_C18',
+        cases=dict(quick=3000, thorough=60000),
+        rule='the C03 problem generator (CNF, cardinality, PB through the constructors and through OPB texts, with and without cost '
+             'function, incl. problems decided at parse time) x printers Problem.CNF (CNF problems), Problem.PBString, '
+             'Solver.PBString before and after Solve; the printed text is read by the Coq readers parse_dimacs / parse_opb and must '
+             'have the models and the cost per model of the original problem (variables that no longer occur are free), and is read '
+             'again by the Go readers whose count and optimum must agree; non-trivial = text of at least 30 bytes',
+        nontrivial=lambda sx, v, meta: v[0] == 'ok' and len(v[2]) > 1 and int(v[2][1]) >= 30,
+        assumptions=['variables that the simplification removed entirely do not appear in the OPB rendering: compared as free variables'],
+    ),
     'C19': dict(
         parts=[dict(harness='C19', judge='C19', cases=dict(quick=900, thorough=9000), judge_module='Judge.J19', judge_fn='judge_C19',
                     extra_args=['-cli', '{BUILD}/gophersat', '-clidir', '{WORK}'])],
